@@ -3,6 +3,26 @@
 import json
 
 CHECKS = {
+ "C03": dict(level="model_checking", engine="E1+E3", design="DESIGN.md 4/C03",
+   technique="explicit-state BFS over the real handlers (any-host call orders) plus bounded exhaustive enumeration of frame/timestamp/TLV boundary lattices and of filter measurement sequences, in both build flavours; oracle: every call returns",
+   text="(a) Full products of per-message-type boundary lattices (buffer length x messageLength, correctionField, wire and receive/transmit timestamps, sender, stepsRemoved, sequence id, TLV suffixes around every margin) are delivered to real ports in 14 seeded states (listening, master, passive, slave E2E/P2P, faulty, boundary clock, path trace, slave-only, master-only, AML) and followed by a fixed suffix of timer/BMCA calls; (b) all host-call sequences over the node alphabet to a depth bound are explored by BFS on canonical states with the real Kalman filter; (c) all measurement sequences of the C13 alphabet drive both filters. Everything runs in a debug-checks build and, as a child process, in a plain release build. The claim is exhaustive for the stated lattices/depths only.",
+   note="Environment models (host, coherent recording clock, TLV providers honouring the documented contract with < and <=) are harness code; panics are attributed by call site (location + first statime frame)."),
+ "C07": dict(level="model_checking", engine="E1", design="DESIGN.md 4/C07",
+   technique="explicit-state BFS over the real handlers; in every explored state every applicable noise frame is judged by one-step unwinding on the complete canonical state",
+   text="Every state reachable to a depth bound in seven worlds (E2E/P2P, slave seeds, acceptable-master list, boundary clock) is probed with ~100 noise frames per port (other domain/sdoId/version for every message type, truncated, over-long, odd TLV, own identity, unacceptable master, Sync/Follow_Up/Delay_Resp from non-parents and sibling ports of the parent, responses for other requesters, management/signaling). The frame must produce no action, no clock or filter call, no rng draw and leave the canonical state (all private fields) identical; determinism then gives trace equivalence for all insertion positions along all explored histories.",
+   note="Canonical state = Debug text of Port/PtpInstanceState minus the dead packet buffer, plus host timers, pending contexts, provider queues and peer counters."),
+ "C08": dict(level="model_checking", engine="E1", design="DESIGN.md 4/C08",
+   technique="explicit-state BFS over the real handlers with role invariants evaluated on every transition",
+   text="All event sequences over the host-call alphabet (timers, transmit timestamps, BMCA, run-time slave-only/quality changes, Announce from better/worse/own-clock masters, Sync/Follow_Up/Delay_Resp/Delay_Req/Pdelay traffic) to a depth bound for nine instance configurations with 1-3 ports (E2E/P2P, master-only, slave-only, obedient and arbitrary host), with the real Kalman filter and a port-tagged recording clock. Invariants: at most one slave/steering port; clock commands only from the slave port; master-only never slave; slave-only never master (from start / after the next BMCA); frame types by role.",
+   note="Depth-bounded, not closed; bounds are in the evidence per world."),
+ "C13": dict(level="model_checking", engine="E1", design="DESIGN.md 4/C13",
+   technique="enumeration of all measurement sequences over an adversarial alphabet (no deduplication) on the real filters, plus explicit-state BFS at port level for the leave-slave clause",
+   text="All sequences up to a length bound over {sync, raw sync, delay, peer} x offsets {0..+-1e9 s} x event-time steps {repeat, +1 ns, +1 s, +1000 s, backwards} and update(), closed by demobilize(), on KalmanFilter (three configurations, three start times) and BasicFilter (two gains), with single/double failing clock calls; every set_frequency/step_clock argument is judged (finite, within max_freq_offset, at least step_threshold). Port level: BFS from slave states with absorbed measurements over every way of leaving slave and every continuation.",
+   note="f64 servo code is covered on the alphabet only, not on the continuum."),
+ "C16": dict(level="exploration", engine="E3", design="DESIGN.md 4/C16",
+   technique="bounded exhaustive enumeration of boundary lattices against exact i128 arithmetic, both build flavours",
+   text="Full products of boundary lattices (75 times x 25 durations, all 256 log intervals, 190 TimeInterval bit patterns) through every public Time/Duration/Interval operation, TimeInterval conversions via PortDS+serde, and Time<->wire through a real master port's Follow_Up and a real slave port. Representable results must be bit-exact; unrepresentable ones must not come back as a wrapped value.",
+   note="Values off the lattice are not covered; log intervals >= 66 (not representable, never taken off the wire) are out of scope."),
  "C04": dict(level="exploration", engine="E3", design="DESIGN.md 4/C04",
    technique="bounded exhaustive enumeration of a structured byte-string lattice, differential against an independent reference codec",
    text="Every byte string of a stated finite lattice (all type nibbles, all 2^12 defined flag combinations, every value of each 8-bit field, boundary and single-bit values of 16-bit fields, zero/ones/single-byte patterns of wide fields, TLV layouts incl. empty/odd/truncated/trailing, messageLength x buffer-length relations) is decoded by the real parser (FuzzMessage) and judged against an independently written IEEE 1588 codec on acceptance, field placement (read from the Debug tree), re-encoding and reference-level equality. Enumeration is complete for the lattice; it says nothing about byte strings off the lattice.",
